@@ -21,7 +21,7 @@ def gen_case(rng, idx, quick=True):
     if len(ROWS) <= idx < len(KINDS):
         n = max(n, 7)          # the directed per-kind cases hold rows
     B3 = 2 * len(KINDS) + 15 + 6 + 10      # first of the RangeIndex cases (see below)
-    if B3 <= idx < B3 + 5:
+    if B3 <= idx < B3 + 7:
         n = max(n, 4)
     ncols = rng.choice([1, 2, 3, 4])
     kinds = rng.sample(KINDS, ncols)
@@ -131,12 +131,22 @@ def gen_case(rng, idx, quick=True):
         start, step = RANGES[idx - b3]
         df.index = pd.RangeIndex(start, start + len(df) * step, step)
         opts.pop("write_index", None)
+    # directed: a two-level MultiIndex (its levels are read as categorical index levels with their own category holders)
+    b4 = b3 + len(RANGES)
+    if b4 <= idx < b4 + 2 and len(df) >= 2:
+        nn_ = len(df)
+        df.index = pd.MultiIndex.from_arrays([np.array([i // 2 for i in range(nn_)], dtype="int64"),
+                                              np.array([["u", "v", "w"][i % 3] for i in range(nn_)], dtype=object)], names=["i0", "i1"])
+        opts["write_index"] = True
+        opts.pop("row_group_offsets", None)
+        if idx == b4 + 1:
+            opts["row_group_offsets"] = [0, nn_ // 2]
     g = {"page": rng.choice([None, None, None, 64, 300, 4096]), "version": rng.choice([1, 1, 2])}
     if forced_page:
         g["page"] = forced_page
     if forced_version:
         g["version"] = forced_version
-    desc = {"rows": n, **({"range_index": [df.index.start, df.index.step]} if isinstance(df.index, pd.RangeIndex) and (df.index.start, df.index.step) != (0, 1) else {}), "kinds": kinds, "nulls": pats, "opts": {k: (v if not isinstance(v, (list, dict)) else str(v)[:60]) for k, v in opts.items()},
+    desc = {"rows": n, **({"multi_index": True} if isinstance(df.index, pd.MultiIndex) else {}), **({"range_index": [df.index.start, df.index.step]} if isinstance(df.index, pd.RangeIndex) and (df.index.start, df.index.step) != (0, 1) else {}), "kinds": kinds, "nulls": pats, "opts": {k: (v if not isinstance(v, (list, dict)) else str(v)[:60]) for k, v in opts.items()},
             "page_size": g["page"], "page_version": g["version"]}
     return {"df": df, "opts": opts, "globals": g, "desc": desc, "kinds": kinds, "pats": pats}
 
